@@ -1284,6 +1284,15 @@ var c01WindowTrusts = []c01Trust{
 	{"metacerts:idpcaleaf,idpca", []string{"idpcaleaf", "idpca"}},
 }
 
+// c01FingerprintSpellings: see the group of that name.
+var c01FingerprintSpellings = func() []c01Trust {
+	var out []c01Trust
+	for _, v := range []string{"openssl-line", "algorithm-prefix", "0x-prefix", "base64", "empty", "first-8-octets", "not-hex", "lower-case", "no-colons", "blank-padded", "one-colon"} {
+		out = append(out, c01Trust{"fingerprint-spelt:" + v, []string{"idp1"}})
+	}
+	return out
+}()
+
 func rootsOf(t c01Trust) []*x509.Certificate {
 	var r []*x509.Certificate
 	for _, n := range t.roots {
@@ -1337,7 +1346,7 @@ func runC01(c *core.Ctx) {
 		trusts = c01Trusts
 	}
 	sps := map[string]*saml.ServiceProvider{}
-	for _, t := range append(append(append([]c01Trust{}, c01Trusts...), c01NoKeyTrusts...), c01WindowTrusts...) {
+	for _, t := range append(append(append(append([]c01Trust{}, c01Trusts...), c01NoKeyTrusts...), c01WindowTrusts...), c01FingerprintSpellings...) {
 		sps[t.name] = harness.NewSP(harness.SPOpt{Trust: t.name})
 	}
 	// ordinary metadata, but the application installed its own SignatureVerifier, which refuses everything
@@ -1575,6 +1584,27 @@ func runC01(c *core.Ctx) {
 				}
 				evaluate(t, s1, 1, key, c01NoKeyTrusts, entries)
 			})
+		}
+	}
+
+	// fingerprint trust whose configured value is idp1's fingerprint written another way, or no fingerprint at all: whether such a value
+	// still names idp1's certificate is the library's business - but it never names anybody else's. Whatever is returned lies under an
+	// idp1 signature.
+	c.Group("fingerprint-spellings")
+	for _, tr := range c01FingerprintSpellings {
+		for _, in := range inits {
+			for _, op1 := range append([]c01Op{{"unchanged", func(*etree.Element, *c01Pool) bool { return true }}}, ops...) {
+				tr, in, op1 := tr, in, op1
+				key := "fpspelling/" + tr.name + "/" + in.name + "/" + op1.name
+				c.Case(key, func(t *core.T) {
+					s1, ok := apply(in.doc, op1)
+					if !ok {
+						t.Outcome("op-not-applicable")
+						return
+					}
+					evaluate(t, s1, 1, key, []c01Trust{tr}, entries)
+				})
+			}
 		}
 	}
 
